@@ -2061,6 +2061,10 @@ class PGPKey(Armorable, ParentRef, PGPObject):
                 sig_type = SignatureType.CanonicalDocument
                 subject = subject.cleartext_signed_text
 
+            elif subject.type == 'literal':
+                # a literal message is signed over the octets of its body, whatever its format marker says
+                subject = bytes(subject._message._contents)
+
             else:
                 subject = subject.message
 
@@ -2453,7 +2457,14 @@ class PGPKey(Armorable, ParentRef, PGPObject):
         if signature is None:
             if isinstance(subject, PGPMessage):
                 for sig in _filter_sigs(subject.signatures):
-                    sspairs.append((sig, subject.cleartext_signed_text if subject.type == 'cleartext' else subject.message))
+                    if subject.type == 'cleartext':
+                        sspairs.append((sig, subject.cleartext_signed_text))
+
+                    elif subject.type == 'literal':
+                        sspairs.append((sig, bytes(subject._message._contents)))
+
+                    else:
+                        sspairs.append((sig, subject.message))
 
             if isinstance(subject, (PGPUID, PGPKey)):
                 sspairs += [ (sig, subject) for sig in _filter_sigs(subject.__sig__) ]
